@@ -126,6 +126,9 @@ def run_case(case, work, rec):
               rng.sample(names, min(len(names), 3)), ["grid_level"] + list(reversed(names[:2]))]
     if len(names) >= 2:
         flists.append([names[-1], "grid_level", names[0]])
+        # a field named twice (a script that appends to a list of names): refusing is fine, other values are not
+        flists.append([names[0], names[0], names[-1], "grid_level"])
+        flists.append([names[-1], names[0], names[-1]])
     if "asset" in case:
         flists = [[names[0]], [names[-1], "grid_level"], [names[2], names[1]]] if len(names) >= 3 else \
             [[names[0]], [names[-1], "grid_level"], ["all"], ["grid_level"]]
@@ -156,6 +159,11 @@ def run_case(case, work, rec):
                     except Exception as e:
                         err = f"{type(e).__name__}: {str(e)[:200]}"
                         break
+                if err and len(set(fl)) != len(fl):
+                    rec.skip("a request that names a field twice was refused")
+                    continue
+                if len(set(fl)) != len(fl):
+                    rec.count("requests_naming_a_field_twice")
                 if err:
                     rec.violation(f"flattening raised {err.split(':')[0]}: {descr}", key=key,
                                   witness={"config": descr, "exc": err})
